@@ -10,11 +10,11 @@ CHECKS = {
    text="QoS 1 heavy histories with connection death at generated I/O indices and 2-6 reconnects; per-message replay invariant (once per resumed connection, same id, DUP, byte-identical, order, never after PUBACK).",
    note="Same transport/broker assumptions as C01; 'accepted' is observed through handles and the wire.", ref="4/C02"),
  "C03": dict(cat="exploration", tech="stateful property-based testing + per-exchange state machine oracle",
-   text="Concurrent QoS 2 exchanges with generated PUBREC/PUBCOMP orders, failing PUBRECs, crashes between the four steps and resumed reconnects, judged by a four-state machine per (session epoch, id) including PUBREL replay order.",
+   text="Concurrent QoS 2 exchanges with generated PUBREC/PUBCOMP orders, failing PUBRECs, crashes between the four steps and resumed reconnects, judged by a four-state machine per (session epoch, id) including PUBREL replay order; QoS 1 publishes, SUBSCRIBE and UNSUBSCRIBE requests are outstanding among the exchanges (shared identifier space and retained table).",
    note="Same assumptions as C01.", ref="4/C03"),
  "C04": dict(cat="exploration", tech="model-based property testing against a reference receiver",
-   text="Generated broker PUBLISH traffic (all QoS, property sets, duplicates, PUBREL for pending/unknown ids) interleaved with outbound traffic on small arenas and reconnects; deliveries and acknowledgements compared with a reference receiver model.",
-   note="Broker respects the client's advertised Receive Maximum and Maximum Packet Size; acknowledgements left unsent/unflushed on a dead transport may or may not be repeated on the next one.", ref="4/C04"),
+   text="Generated broker PUBLISH traffic (all QoS, property sets, duplicates, PUBREL for pending/unknown ids) interleaved with outbound traffic on small arenas and reconnects; deliveries and acknowledgements compared with a reference receiver model. A second, purpose-built generator fills the inbound QoS 2 window (5-8 of the 8 advertised), resumes once or twice with a broker that may not have seen the previous PUBRECs (DUP PUBLISH of identifiers the client holds), and mixes releases with new messages re-using identifiers.",
+   note="Broker respects the client's advertised Receive Maximum and Maximum Packet Size; acknowledgements left unsent/unflushed on a dead transport may or may not be repeated on the next one, except a successful PUBCOMP that never left the client: it is mandatory (and first) once the broker retransmits its PUBREL.", ref="4/C04"),
  "C05": dict(cat="exploration", tech="stateful property-based testing over connection sequences + decoded CONNECT / replay oracle",
    text="2-8 connections with arbitrary legal session-present answers and failed handshakes in between; CONNECT flags/client id, ConnectEvent, replay-before-new-packet and discard-on-fresh-session rules checked on the wire and through handles.",
    note="Same assumptions as C01. Handshake outcomes include well-framed success CONNACKs that the client rejects while reading the properties (Receive Maximum 0, Maximum QoS 3): connect() fails and the session must be untouched.", ref="4/C05"),
@@ -23,7 +23,7 @@ CHECKS = {
    note="Receive Maximum belongs to each CONNACK and differs between the connections of a case in 40 % of the cases; retransmissions may then wait for room in a smaller window (accepted, never required). Counting uses the per-connection reading of MQTT 5 section 4.9, which is the weaker (sound) one. Rule accepted-beyond-window: a QoS 1/2 publish that returns a handle while the model counts >= Receive Maximum unresolved publishes.", ref="4/C06"),
  "C07": dict(cat="exploration", tech="property-based testing with a wrap-reaching generator (identifier burn) + in-flight-set invariant",
    text="Cases fill the send window with long-lived QoS 1/2 publishes and SUBSCRIBE/UNSUBSCRIBE, burn 65535*w+offset identifier allocations through locally refused publishes so the 16-bit counter lands on/around identifiers still in use, then issue new operations; every identifier-bearing packet must carry a non-zero id outside the model's in-flight set.",
-   note="The burn relies on refused requests consuming identifiers (stated in the property); if a refactor changes that the non-trivial count drops instead of an alarm being raised. A second generator covers identifiers across 2-6 connections with failed handshakes in between.", ref="4/C07"),
+   note="The burn relies on refused requests consuming identifiers (stated in the property); if a refactor changes that the non-trivial count drops instead of an alarm being raised. A second generator covers identifiers across 2-6 connections with failed handshakes in between; a third builds a dense block of 9-15 identifiers in use (eight QoS 2 exchanges awaiting PUBCOMP plus unacknowledged SUBSCRIBE/UNSUBSCRIBE) and lands the wrapped counter on it.", ref="4/C07"),
  "C08": dict(cat="exploration", tech="exhaustive short-input enumeration + grammar-based generation with single-point mutations + coverage-guided fuzzing (libFuzzer, thorough tier), three-valued reference classifier as oracle",
    text="Every byte string of length 1-2 (thorough: 3), 256 first bytes x 20 remaining-length forms x 8 bodies, every server packet type in every legal encoding plus one mutation, and saved fuzzer inputs are fed before and after CONNACK into a session with one in-flight operation of every kind under generated read chunking. VALID => exact API effect; MALFORMED => InvalidPacket, dead handle, nothing acted upon; any panic/overflow is a violation.",
    note="Lazily decoded property contents outside CONNACK and broker protocol errors (ack of the wrong kind, CONNACK after handshake, AUTH) are UNSPECIFIED and not judged.", ref="4/C08"),
@@ -32,21 +32,21 @@ CHECKS = {
    note="Property lists are compared as multisets (the API does not fix the position of correlate()). A second generator (histories with partial acknowledgement and resumed reconnects) checks that every retransmission still decodes to its request.", ref="4/C09"),
  "C10": dict(cat="exploration", tech="property-based testing on a virtual clock owned by the harness (embassy-time driver) + timestamp oracle",
    text="Keep-alive values incl. 0/1/2..65535 and Server Keep Alive overrides; the application sits in poll() while virtual time jumps to the client's own deadlines (plus generated executor latency) and to scheduled inbound arrivals; PINGRESP delays around the 5 s bound incl. never. Gaps between completed client packets <= effective keep-alive, no ping at keep-alive 0, dead peer detected at the bound (not earlier, not later than injected latency), timely PINGRESP never disconnects.",
-   note="Writes complete instantly; a PINGRESP readable exactly at the bound (or within injected latency after it) is unspecified. 40 % of the cases start with an earlier connection of the same session (own Server Keep Alive, possibly abandoned with a PINGREQ queued); the last connection is judged, its effective keep-alive being the Server Keep Alive of its CONNACK, else the value in its CONNECT. Known finding: keep-alive < 5 s with a PINGRESP later than the keep-alive.", ref="4/C10"),
+   note="Writes complete instantly; a broker PUBLISH may arrive in two parts (tail later or never: a peer stalling mid-packet); a PINGRESP readable exactly at the bound (or within injected latency after it) is unspecified. 40 % of the cases start with an earlier connection of the same session (own Server Keep Alive, possibly abandoned with a PINGREQ queued); the last connection is judged, its effective keep-alive being the Server Keep Alive of its CONNACK, else the value in its CONNECT. Known finding: keep-alive < 5 s with a PINGRESP later than the keep-alive.", ref="4/C10"),
  "C11": dict(cat="fault_enumeration", tech="fault injection at generated I/O-call indices + sticky-death invariant",
    text="Faults (read error, EOF, write error, flush error, broker DISCONNECT, local disconnect) at generated I/O calls followed by further API calls on the same handle; after death every op fails fast with Disconnected and the transport poll counter must not move.",
    note="Death triggers are the results listed in the property, plus: an operation that read a broker DISCONNECT and returned any error. NotReady/InvalidRequest/Rejected/resource errors alone are not triggers.", ref="4/C11"),
  "C12": dict(cat="exploration", tech="stateful property-based testing of arbitrary failure prefixes + differential twin (brand-new session)",
    text="Arbitrary generated history (faults, cancellations, 25% failed handshakes of all kinds, leaked handles, small buffers, arena-filling payloads) followed by connect() over a healthy transport to a conformant broker: must succeed whenever a brand-new session of the same configuration can, start with a complete CONNECT, parse cleanly, and pass a usability probe with results identical to the twin.",
    note="Known finding: CONNECT does not fit behind retained packets in a nearly full arena (BufferTooSmall forever). Receive buffers below 12 bytes cannot complete a subscribe at all and are excluded.", ref="4/C12"),
- "C13": dict(cat="exploration", tech="metamorphic / differential testing over every (operation, await point) pair (counted, then enumerated or sampled)",
-   text="Program with a reactive broker on a pend-first 1-byte-write transport; await points counted in an uncancelled run; each operation dropped at each await point (all when <= budget) and the connection driven to idle; request packets, PUBRELs, answers to broker publishes, delivered messages and final quiescence must equal the uncancelled twin, or the twin without the operation when it left no trace.",
+ "C13": dict(cat="exploration", tech="metamorphic / differential testing over every (operation, await point) pair (counted, then enumerated or sampled) + enumerated window-edge cancellations judged by the history monitor",
+   text="Program with a reactive broker on a pend-first 1-byte-write transport; await points counted in an uncancelled run; each operation dropped at each await point (all when <= budget) and the connection driven to idle; request packets, PUBRELs, answers to broker publishes, delivered messages and final quiescence must equal the uncancelled twin, or the twin without the operation when it left no trace. Second, enumerated family (560 cases): the publish that fills the send window (Receive Maximum 1-4 or absent) is dropped at await point 0-6 under four write patterns; the history monitor must report nothing that it does not report for the twin without cancellation and with whole writes.",
    note="QoS 0 publish (also one that auto-downgrade produced) is documented as not cancel-safe and never cancelled. Pairs of cancellations are compared against the four with/without twins. Programs that disconnect without draining are compared by a prefix rule on the request stream. Known finding: disconnect() dropped after some of its bytes were accepted.", ref="4/C13"),
  "C14": dict(cat="exploration", tech="boundary-swept property-based testing with a reference length oracle (both directions)",
    text="Broker maxima 2..299 (and absent) with request lengths limit-3..limit+3 for every request kind, mandatory acks that may not fit, replay under a smaller later maximum, inbound packets of rx-1/rx/rx+1/huge declared bytes; refused iff the reference-encoded length exceeds the maximum, refusals leave no trace, nothing oversize is ever transmitted, oversize inbound ends the connection cleanly.",
    note="Maximum of exactly 4 leaves the ack outcome unspecified; behaviour of requests while a retained packet exceeds a later smaller maximum is unspecified beyond 'not transmitted'.", ref="4/C14"),
  "C15": dict(cat="exploration", tech="differential testing across fragmentations (exhaustive for a 13-byte stream, generated otherwise)",
-   text="Same program and inbound stream run with whole I/O and with generated read chunkings / partial-write patterns / pend-first scheduling; all 4096 segmentations of CONNACK + QoS 2 PUBLISH incl. every split inside the fixed headers. Deliveries, operation results, sampled predicates, connect results and outbound bytes must be identical.",
+   text="Same program and inbound stream run with whole I/O and with generated read chunkings / partial-write patterns / pend-first scheduling; all 4096 segmentations of CONNACK + QoS 2 PUBLISH incl. every split inside the fixed headers; 28 programs with a packet above 64 KiB cut on and around byte 65535. Deliveries, operation results, sampled predicates, connect results and outbound bytes must be identical.",
    note="Virtual time frozen; no cancellations or faults (C13 / C11 cover those).", ref="4/C15"),
  "C16": dict(cat="exploration", tech="stateful property-based testing + bounded-progress oracle with count-based watchdogs",
    text="Arbitrary generated prefix, then the benign continuation (resume, broker acknowledges everything, application polls until idle): idle within 4*(pending+8)+10 polls and arena+const bytes, quiescent, no pending handle, nothing owed, poll() never returns Ok(None) without a completed I/O call, no packet sent twice on one connection, watchdogs (transport polls, clock reads) never fire.",
@@ -55,13 +55,13 @@ CHECKS = {
    text="Long histories on arenas of 36..4095 bytes with all ack orders, arena-filling payloads, QoS 0 and CONNECT traffic, reconnects; every retransmission must equal the first transmission except the DUP bit, and after draining a probe sweep (size ladder for QoS 0/1/2, slot counts) must give exactly the results of a brand-new session of the same build.",
    note="The twin is the same build, so local constants are never baked into the oracle. In half of the cases whose last connection survives the probe sweep runs on that same connection (a reconnect re-packs the arena).", ref="4/C17"),
  "C18": dict(cat="exploration", tech="model-based property testing of handle predicates sampled after every step",
-   text="All op kinds, ack orders, reason codes and reconnect patterns; is_pending/is_complete/is_invalidated sampled after every step and compared with the model; failing acks must surface as Rejected(code) from the consuming op.",
-   note="Handle-to-packet association is derived from the wire per class of identical requests (acceptance order, accepted requests first); the status of a handle whose request has a cancelled identical twin is not judged.", ref="4/C18"),
+   text="All op kinds, ack orders, reason codes and reconnect patterns; is_pending/is_complete/is_invalidated sampled after every step - through the connection and through its session, which must agree - and compared with the model; failing acks must surface as Rejected(code) from the consuming op.",
+   note="Handle-to-packet association is derived from the wire per class of identical requests (acceptance order, accepted requests first); the status of a handle whose request has a cancelled identical twin is not judged. Known finding D17: a completed handle reads pending again while a later request re-uses its identifier after a counter wrap (exact signatures, shrunk input replayed from corpus/C18).", ref="4/C18"),
  "C19": dict(cat="exploration", tech="exhaustive table enumeration against an MQTT 5 legality oracle (three-valued)",
-   text="Exhaustive: 4 request contexts x 27 property kinds x boundary values x 4 session states, will x 27 kinds, empty topic lists, dead handle, Maximum QoS x requested QoS x downgrade flag (2562 cells). MUST_REJECT cells: documented error, no I/O, observable state unchanged; MUST_ACCEPT cells: Ok and the property decodes from the wire.",
+   text="Exhaustive: 4 request contexts x 27 property kinds x boundary values x 4 session states, will x 27 kinds, empty topic lists, dead handle, Maximum QoS x requested QoS x downgrade flag (2562 cells). MUST_REJECT cells: the documented error (InvalidRequest, in every session state incl. the exhausted ones), no I/O, observable state unchanged; MUST_ACCEPT cells: Ok and the property decodes from the wire.",
    note="Legality table written from the MQTT 5 specification; three cells classes are UNSPECIFIED and not judged (Topic Alias > 0, Server Reference on client DISCONNECT, empty/wildcard Response Topic).", ref="4/C19"),
  "C20": dict(cat="exploration", tech="property-based round-trip through a second session + reference decoder",
-   text="Generated request publishes (response topic / correlation data of boundary lengths at generated property positions, or absent); reply(), reply()+user properties and reply_owned::<T,C> over 10 capacity pairs are published through a second session and decoded from its wire.",
+   text="Generated request publishes (response topic / correlation data of boundary lengths at generated property positions, or absent); reply(), reply()+user properties and reply_owned::<T,C> over 10 capacity pairs are published through a second session and decoded from its wire; a third reply carries further publish properties of its own (Response Topic for a follow-up, Content Type, Payload Format Indicator, Message Expiry).",
    note="At most one Response Topic / Correlation Data per inbound PUBLISH.", ref="4/C20"),
 }
 
